@@ -129,15 +129,24 @@ fn check_matrix(ont: &Ontology, m: &[Vec<f32>], r: usize, c: usize, a_ids: &[u32
             return v("HpoSet::similarity", "result is not the documented combination of the pairwise matrix", format!("{comb:?} matrix {m:?}: observed {s1} expected {want}"));
         }
         // the user function is asked for (a in A, b in B), each pair once
+        // the user function is asked for exactly the pairs (a in A, b in B), in that argument order (how often a
+        // pair is evaluated is not fixed by the property)
         let mut want_calls: Vec<(u32, u32)> = a_ids.iter().flat_map(|x| b_ids.iter().map(move |y| (*x, *y))).collect();
         let mut got_calls = calls.clone();
         want_calls.sort_unstable();
+        want_calls.dedup();
         got_calls.sort_unstable();
+        got_calls.dedup();
         if got_calls != want_calls {
-            return v("GroupSimilarity::calculate", "term similarity is not evaluated exactly once for every (a in A, b in B) in that argument order", format!("calls {calls:?}"));
+            return v("GroupSimilarity::calculate", "term similarity is not evaluated for exactly the pairs (a in A, b in B) in that argument order", format!("calls {calls:?}"));
         }
         // 1b. the second set living on another Ontology instance with the same content (another release of the same terms: same ids, other names): the combination is defined on the terms, not on the instance
-        if let Some(tw) = &twin {
+        // (an implementation that refuses sets of two instances by panicking is tolerated; a silently different value is not)
+        let twin_ok = twin.as_ref().map_or(false, |tw| {
+            let b2 = set(tw, b_ids);
+            crate::ctx::guard(|| a.similarity(&b2, table.clone(), comb)).is_ok()
+        });
+        if let Some(tw) = twin.as_ref().filter(|_| twin_ok) {
             let b2 = set(tw, b_ids);
             table.owners.borrow_mut().clear();
             let s1b = a.similarity(&b2, table.clone(), comb);
@@ -505,6 +514,184 @@ pub fn run(ctx: &mut Ctx) {
             }
         }
     }
+    // ---- combiner selection by name
+    {
+        ctx.space("names/StandardCombiner::try_from", "the three documented names x {lower, UPPER, Mixed}: the named combiner (value on a 1x2 and a 2x1 matrix that separates the three); 6 other strings are refused; the default is funSimAvg");
+        if ctx.take() {
+            ctx.state();
+            ctx.exec();
+            ctx.validated();
+            let res = guard(|| -> V {
+                let data = [0.25f32, 1.0];
+                for (name, comb) in [("funsimavg", StandardCombiner::FunSimAvg), ("funsimmax", StandardCombiner::FunSimMax), ("bma", StandardCombiner::Bma)] {
+                    let mixed: String = name.chars().enumerate().map(|(i, c)| if i % 2 == 0 { c.to_ascii_uppercase() } else { c }).collect();
+                    for spelled in [name.to_string(), name.to_uppercase(), mixed] {
+                        let Ok(got) = StandardCombiner::try_from(spelled.as_str()) else {
+                            return Some(("StandardCombiner::try_from".into(), "refuses a documented name".into(), format!("{spelled:?}")));
+                        };
+                        for (r, c) in [(1usize, 2usize), (2, 1)] {
+                            let (x, y) = (got.calculate(&Matrix::new(r, c, &data)), comb.calculate(&Matrix::new(r, c, &data)));
+                            if x.to_bits() != y.to_bits() {
+                                return Some(("StandardCombiner::try_from".into(), "the name selects another combiner".into(), format!("{spelled:?} on a {r}x{c} matrix [1/4, 1]: {x} vs {y}")));
+                            }
+                        }
+                    }
+                }
+                for bad in ["", "funsim", "funsimavg ", "max", "bma2", "average"] {
+                    if StandardCombiner::try_from(bad).is_ok() {
+                        return Some(("StandardCombiner::try_from".into(), "accepts a name that is not documented".into(), format!("{bad:?}")));
+                    }
+                }
+                let d = StandardCombiner::default().calculate(&Matrix::new(1, 2, &data));
+                if d.to_bits() != StandardCombiner::FunSimAvg.calculate(&Matrix::new(1, 2, &data)).to_bits() {
+                    return Some(("StandardCombiner::default".into(), "the default is not funSimAvg".into(), format!("{d}")));
+                }
+                None
+            });
+            match res {
+                Ok(None) => {}
+                Ok(Some((site, sig, det))) => ctx.violation(&site, &sig, json!({"difference": det})),
+                Err(p) => ctx.violation("StandardCombiner::try_from", "panics", json!({"observed": p})),
+            }
+        }
+    }
+    // ---- medium sizes (between the exhaustive 4x4 and the size border) with informative values, a cache that
+    // has to hold thousands of pairs, and a user-supplied combiner that sees the matrix itself
+    {
+        let dims: Vec<(usize, usize)> = vec![(4, 5), (5, 9), (7, 8), (8, 8), (9, 16), (15, 17), (16, 33), (31, 32), (33, 17), (64, 65), (100, 100), (65, 3), (3, 65)];
+        ctx.space("matrices/medium-sizes", &format!("shapes {dims:?} on a flat ontology with 210 terms: value 2^-(1 + (5i + 3j) mod 13) and a permutation-peak variant (one 1.0 per row); 3 combiners through HpoSet::similarity / GroupSimilarity / the Matrix, cached == plain for (A,B), (B,A), (A,B) on ONE cache, and a user combiner must receive the |A| x |B| matrix of exactly these values"));
+        let mut med: Option<Ontology> = None;
+        #[derive(Clone)]
+        struct Grid {
+            base: u32,
+            cols_base: u32,
+            peak: bool,
+            rows: usize,
+            cols: usize,
+        }
+        impl Grid {
+            fn at(&self, i: usize, j: usize) -> f32 {
+                if self.peak {
+                    if j == (i * 7 + 3) % self.cols {
+                        1.0
+                    } else {
+                        0.03125 * (1 + (i + 2 * j) % 5) as f32
+                    }
+                } else {
+                    1.0 / (1u32 << (1 + (5 * i + 3 * j) % 13)) as f32
+                }
+            }
+        }
+        impl Similarity for Grid {
+            fn calculate(&self, a: &HpoTerm, b: &HpoTerm) -> f32 {
+                use hpo::annotations::AnnotationId;
+                let (x, y) = (a.id().as_u32(), b.id().as_u32());
+                // rows are the ids base.., columns the ids cols_base..; the transposed question (B, A) is answered
+                // with a different, asymmetric value
+                if x >= self.base && x < self.base + self.rows as u32 && y >= self.cols_base && y < self.cols_base + self.cols as u32 {
+                    self.at((x - self.base) as usize, (y - self.cols_base) as usize)
+                } else if y >= self.base && y < self.base + self.rows as u32 && x >= self.cols_base && x < self.cols_base + self.cols as u32 {
+                    0.5 * self.at((y - self.base) as usize, (x - self.cols_base) as usize) + 0.001953125
+                } else {
+                    f32::NAN
+                }
+            }
+        }
+        struct Probe {
+            seen: Rc<RefCell<Option<((usize, usize), Vec<Vec<f32>>)>>>,
+        }
+        impl SimilarityCombiner for Probe {
+            fn combine(&self, m: &Matrix<f32>) -> f32 {
+                let rows: Vec<Vec<f32>> = m.rows().map(|r| r.copied().collect()).collect();
+                *self.seen.borrow_mut() = Some((m.dim(), rows));
+                0.5
+            }
+        }
+        for (r, c) in dims {
+            for peak in [false, true] {
+                if !ctx.take() {
+                    continue;
+                }
+                ctx.state();
+                ctx.nontrivial();
+                if med.is_none() {
+                    let mut fm = Facts::default();
+                    fm.terms.push(Facts::term(1, "root"));
+                    for i in 0..210u32 {
+                        fm.terms.push(Facts::term(1000 + i, "m"));
+                        fm.edges.push((1000 + i, 1));
+                    }
+                    med = drive::build(&fm, Mode::Minimal).ok();
+                }
+                let Some(om) = med.as_ref() else {
+                    ctx.violation("Builder", "[builder] construction fails on valid facts", json!({"terms": 211}));
+                    break;
+                };
+                let grid = Grid { base: 1000, cols_base: 1105, peak, rows: r, cols: c };
+                let a_ids: Vec<u32> = (0..r as u32).map(|i| 1000 + i).collect();
+                let b_ids: Vec<u32> = (0..c as u32).map(|j| 1105 + j).collect();
+                ctx.transitions((r * c * 9) as u64);
+                ctx.execs(12);
+                ctx.validateds(12);
+                let res = guard(|| -> V {
+                    let a = set(om, &a_ids);
+                    let b = set(om, &b_ids);
+                    let m: Vec<Vec<f32>> = (0..r).map(|i| (0..c).map(|j| grid.at(i, j)).collect()).collect();
+                    let mt: Vec<Vec<f32>> = (0..c).map(|j| (0..r).map(|i| 0.5 * grid.at(i, j) + 0.001953125).collect()).collect();
+                    let data: Vec<f32> = m.iter().flatten().copied().collect();
+                    for comb in COMBINERS {
+                        let want = reference(comb, &m, r, c);
+                        let want_t = reference(comb, &mt, c, r);
+                        let s1 = a.similarity(&b, grid.clone(), comb);
+                        if !close(s1, want) {
+                            return Some(("HpoSet::similarity".into(), "result is not the documented combination of the pairwise matrix".into(), format!("{comb:?} {r}x{c}: observed {s1} expected {want}")));
+                        }
+                        let s2 = GroupSimilarity::new(comb, grid.clone()).calculate(&a, &b);
+                        if s2.to_bits() != s1.to_bits() {
+                            return Some(("GroupSimilarity::calculate".into(), "differs from HpoSet::similarity".into(), format!("{comb:?} {r}x{c}: {s2} vs {s1}")));
+                        }
+                        let s3 = comb.calculate(&Matrix::new(r, c, &data));
+                        if !close(s3, want) {
+                            return Some(("SimilarityCombiner::calculate".into(), "result is not the documented combination of the matrix".into(), format!("{comb:?} {r}x{c}: observed {s3} expected {want}")));
+                        }
+                        let st = GroupSimilarity::new(comb, grid.clone()).calculate(&b, &a);
+                        if !close(st, want_t) {
+                            return Some(("GroupSimilarity::calculate".into(), "result is not the documented combination of the pairwise matrix".into(), format!("{comb:?} {c}x{r} (sets swapped, asymmetric similarity): observed {st} expected {want_t}")));
+                        }
+                        // one cache serving (A,B), (B,A), (A,B): up to 10 000 + 10 000 entries
+                        let cached = GroupSimilarity::new(comb, CachedSimilarity::new(grid.clone()));
+                        let (c1, c2, c3) = (cached.calculate(&a, &b), cached.calculate(&b, &a), cached.calculate(&a, &b));
+                        if c1.to_bits() != s2.to_bits() || c3.to_bits() != s2.to_bits() || c2.to_bits() != st.to_bits() {
+                            return Some(("CachedSimilarity".into(), "caching adaptor changes the result".into(), format!("{comb:?} {r}x{c}: plain (A,B) {s2}, (B,A) {st}; one cache: {c1}, {c2}, {c3}")));
+                        }
+                    }
+                    // a user-supplied combiner receives the |A| x |B| matrix, row i = member i of A
+                    // (either orientation is accepted: the documented combinations do not depend on it)
+                    let seen = Rc::new(RefCell::new(None));
+                    let gs = GroupSimilarity::new(Probe { seen: seen.clone() }, grid.clone());
+                    let out = gs.calculate(&a, &b);
+                    let got = seen.borrow().clone();
+                    match got {
+                        None => return Some(("GroupSimilarity::calculate".into(), "a user-supplied combiner is not asked".into(), format!("{r}x{c}"))),
+                        Some((dim, rows)) => {
+                            let transposed: Vec<Vec<f32>> = (0..c).map(|j| (0..r).map(|i| m[i][j]).collect()).collect();
+                            let ok = (dim == (r, c) && rows == m) || (dim == (c, r) && rows == transposed);
+                            if !ok || out != 0.5 {
+                                return Some(("GroupSimilarity::calculate".into(), "a user-supplied combiner does not receive the matrix of the pairwise similarities (or its result is not returned)".into(), format!("{r}x{c}: combiner saw dim {dim:?}, first row {:?}; returned {out}", rows.first())));
+                            }
+                        }
+                    }
+                    None
+                });
+                match res {
+                    Ok(None) => {}
+                    Ok(Some((site, sig, det))) => ctx.violation(&site, &format!("[medium sizes] {sig}"), json!({"rows": r, "cols": c, "values": if peak { "one 1.0 per row at column (7i+3) mod cols, small values elsewhere" } else { "2^-(1 + (5i+3j) mod 13)" }, "A": format!("ids 1000..{}", 1000 + r), "B": format!("ids 1105..{}", 1105 + c), "difference": det})),
+                    Err(p) => ctx.violation("HpoSet::similarity", "[medium sizes] panics", json!({"rows": r, "cols": c, "observed": p})),
+                }
+                ctx.sample(|| json!({"shape": [r, c], "peak_variant": peak}));
+            }
+        }
+    }
     // ---- (last, because of the garbage it leaves in the allocator) sets around the 16-bit size border: the
     // documented combinations for |A| up to 65 535 with |B| in {1, 2, 4} and the transposed shapes
     {
@@ -521,7 +708,8 @@ pub fn run(ctx: &mut Ctx) {
             }
         }
         fn by_id(a: u32, b: u32) -> f32 {
-            [0.25f32, 0.5, 1.0, 0.0][((a as u64 * 7 + b as u64 * 3) % 4) as usize]
+            // period 61 in both ids (an earlier period-4 table made every row and column maximum of the big shapes 1.0)
+            [0.25f32, 0.5, 1.0, 0.0, 0.125, 0.75, 0.0625][(((a as u64 * 7 + b as u64 * 3) % 61) % 7) as usize]
         }
         for (r, c) in shapes {
             if !ctx.take() {
@@ -578,7 +766,7 @@ pub fn run(ctx: &mut Ctx) {
             ctx.validateds(9);
             match res {
                 Ok(None) => {}
-                Ok(Some((site, sig, det))) => ctx.violation(&site, &format!("[sets at the 16-bit size border] {sig}"), json!({"rows": r, "cols": c, "similarity": "[0.25, 0.5, 1.0, 0.0][(7a + 3b) % 4] of the two term ids", "A": format!("ids 10..{}", 10 + r), "B": format!("the last {c} of ids 10..65550"), "difference": det})),
+                Ok(Some((site, sig, det))) => ctx.violation(&site, &format!("[sets at the 16-bit size border] {sig}"), json!({"rows": r, "cols": c, "similarity": "[1/4, 1/2, 1, 0, 1/8, 3/4, 1/16][((7a + 3b) mod 61) mod 7] of the two term ids", "A": format!("ids 10..{}", 10 + r), "B": format!("the last {c} of ids 10..65550"), "difference": det})),
                 Err(p) => ctx.violation("HpoSet::similarity", "[sets at the 16-bit size border] panics", json!({"rows": r, "cols": c, "observed": p})),
             }
             ctx.sample(|| json!({"rows": r, "cols": c}));
